@@ -17,7 +17,7 @@ import (
 
 // C14 — name tests, namespaces and name functions identify nodes as documented.
 
-const ruleC14 = "rapid: documents whose elements/attributes lie in 0-3 namespaces under varying prefixes (same URI under two prefixes, two URIs under one prefix in different subtrees, default namespace, unprefixed attributes) x both navigator flavours x paths of 1-3 steps over all axes with prefixed and unprefixed name tests (prefixes p, q from the document and r foreign to it) x namespace configuration: none (Compile), a map binding every prefix of the expression to a drawn URI (incl. re-binding a document prefix to another URI), a map missing one prefix, the empty map; and name()/local-name()/namespace-uri() with no argument or a flat node-set argument (possibly empty). Oracle = the statement transcribed: no map -> prefix and local name equal; map + navigator exposing a namespace URI -> (URI bound to the prefix, local name) equal whatever the document's prefix; unbound prefix -> compile error; functions report qualified name / local name / namespace URI of the context respectively first node, '' for the empty set. Nothing is asserted where the statement is silent (unprefixed name tests under a map, prefix:*, navigators without namespace URI under a map, namespace-uri() on such navigators). Non-trivial: the document holds a node the last name test matches and a node with the same local name it must not match (paths); an unbound-prefix rejection; a name function applied to a node with a prefix or namespace. Distinct by (document, context, expression, namespace map, flavour)."
+const ruleC14 = "rapid: documents whose elements/attributes lie in 0-3 namespaces under varying prefixes (same URI under two prefixes, two URIs under one prefix in different subtrees, default namespace, unprefixed attributes) x both navigator flavours x paths of 1-3 steps over all axes with prefixed and unprefixed name tests (prefixes p, q from the document and r foreign to it) x namespace configuration: none (Compile), a map binding every prefix of the expression to a drawn URI (incl. re-binding a document prefix to another URI, and binding a prefix to the empty URI: no namespace), a map missing one prefix, the empty map; and name()/local-name()/namespace-uri() with no argument or a flat node-set argument (possibly empty). Oracle = the statement transcribed: no map -> prefix and local name equal; map + navigator exposing a namespace URI -> (URI bound to the prefix, local name) equal whatever the document's prefix; unbound prefix -> compile error; functions report qualified name / local name / namespace URI of the context respectively first node, '' for the empty set. Nothing is asserted where the statement is silent (unprefixed name tests under a map, prefix:*, navigators without namespace URI under a map, namespace-uri() on such navigators). Non-trivial: the document holds a node the last name test matches and a node with the same local name it must not match (paths); an unbound-prefix rejection; a name function applied to a node with a prefix or namespace. Distinct by (document, context, expression, namespace map, flavour)."
 
 var uC14 = harness.NewUnit("C14", "rapid-namespaces", ruleC14)
 
@@ -186,6 +186,9 @@ func c14Doc() xgen.DocOpts {
 
 func TestC14Rapid(t *testing.T) {
 	uris := []string{"u1", "u2", "u3"}
+	// what a prefix may be bound to: also the empty URI - (no namespace, local name), i.e. the
+	// unprefixed nodes outside every default namespace, whatever the prefix means in the document
+	bindable := []string{"u1", "u2", "u3", "u1", "u2", ""}
 	runRapid(t, uC14, func(rt *rapid.T) {
 		shapedOpts, _ := xgen.Shaped(rt, c14Doc())
 		doc := xgen.Doc(rt, shapedOpts)
@@ -203,7 +206,7 @@ func TestC14Rapid(t *testing.T) {
 			// under a map only prefixed name tests are asserted; pre-bind every candidate prefix so that guidance follows the map
 			g.Prefixes = []string{"p", "q", "r"}
 			for _, p := range g.Prefixes {
-				nsmap[p] = rapid.SampledFrom(uris).Draw(rt, "bind-"+p)
+				nsmap[p] = rapid.SampledFrom(bindable).Draw(rt, "bind-"+p)
 			}
 			m := nsmap
 			g.Env.Match = func(t xast.NodeTest, n *xdoc.Node) bool { return n.Local == t.Local && n.NS == m[t.Prefix] }
